@@ -127,7 +127,7 @@ SubValue(p, vals) ==
 SubGraph(p, nodes, conn) ==
     LET outside == VarsOf(p) \ nodes
         vals == [x \in outside |-> IF x \in DOMAIN conn THEN conn[x] ELSE 0]
-    IN WoOffset(SubValue(p, vals))
+    IN SubValue(WoOffset(p), vals)       \* only the ORIGINAL constant is dropped; outside terms may leave a new one
 
 \* ---------- extrema ----------
 Subsets(V) == SUBSET V
